@@ -66,6 +66,8 @@ def grids(tier):
     out.append({"kind": "polar", "n": 40, "R": 10.0, "fine": True})
     for pz in (False, True):
         out.append({"kind": "cyl", "shape": [8, 16], "R": 8.0, "z": [0.0, 16.0], "periodic_z": pz})
+        out.append({"kind": "cyl", "shape": [8, 16], "R": 8.0, "z": [3.0, 19.0], "periodic_z": pz})  # z range excluding 0
+    out.append({"kind": "cyl", "shape": [8, 16], "R": 8.0, "z": [-21.5, -5.5], "periodic_z": True})
     return out
 
 
@@ -79,6 +81,20 @@ def blocks(tier, seed):
         # candidates close to the optimum of the plain squared deviation are the ones a wrong objective would worsen
         for lv in ("fixed", "auto+fit"):
             out.append({"grid": g, "image": "mix", "levels": lv, "variant": seed % 3, "tier": tier})
+    out.append({"pairs": True, "variant": seed % 3, "tier": tier})
+    return out
+
+
+def probes(variant):
+    """cases whose fits need different bounds / parameter counts: used for the shared-options history block"""
+    g2 = {"kind": "cart", "shape": [12, 12], "dx": [1.0, 1.0], "origin": [0.0, 0.0], "periodic": [True, False]}
+    gc = {"kind": "cyl", "shape": [8, 16], "R": 8.0, "z": [3.0, 19.0], "periodic_z": True}
+    gp = {"kind": "polar", "n": 12, "R": 12.0}
+    out = []
+    for g, img, lv, cand in ((g2, "clean", "auto+fit", ["DiffuseDroplet", 0, 1.0, "displaced"]), (g2, "affine", "auto+fit", ["DiffuseDroplet", 0, 1.0, "wrong-radius"]),
+                             (g2, "affine", "fixed", ["PerturbedDroplet2D", 2, 1.0, "displaced"]), (g2, "clean", "auto", ["SphericalDroplet", 0, None, "displaced"]),
+                             (gc, "affine", "auto+fit", ["DiffuseDroplet", 0, 1.0, "displaced"]), (gp, "clean", "fixed+fit", ["DiffuseDroplet", 0, None, "displaced"])):
+        out.append({"grid": g, "image": img, "levels": lv, "cand": cand, "variant": variant})
     return out
 
 
@@ -92,7 +108,7 @@ def truth_for(g):
         if g.get("fine"):
             return [0.0] * (2 if k == "polar" else 3), 4.6, 1.0
         return [0.0] * (2 if k == "polar" else 3), 5.3, 1.2
-    return [0.0, 0.0, 7.3], 3.2, 1.0
+    return [0.0, 0.0, g["z"][0] + 7.3], 3.2, 1.0
 
 
 def candidates(g, tier, img):
@@ -119,6 +135,13 @@ def candidates(g, tier, img):
 
 
 def cases(block):
+    if block.get("pairs"):
+        P = probes(block["variant"])
+        for opts in ({"max_nfev": 400}, {"max_nfev": 400, "x_scale": 1.0}):
+            for tol in (None, 1e-9):
+                for i, j in itertools.product(range(len(P)), repeat=2):
+                    yield {"pair": [P[i], P[j]], "shared": opts, "tolerance": tol}
+        return
     g = block["grid"]
     if block["image"] == "mix":
         if geom.dim_of(g) == 3 and g["kind"] == "cart" and block["tier"] != "thorough":
@@ -138,11 +161,33 @@ def noise_pattern(shape, variant):
     return ((s * 37 + sum(i * i for i in idx) * 11) % 17) / 16.0  # deterministic lattice of values in [0, 1]
 
 
-def run_case(case, ctx):
+def run_pair(case, ctx):
+    """two refinements handed the SAME options dict one after the other: the second must equal a run with a fresh dict"""
+    from droplets.image_analysis import refine_droplet
+
+    A, B = case["pair"]
+    tags = {"history": "shared-options"}
+    extra = {} if case["tolerance"] is None else {"tolerance": case["tolerance"]}
+    fB, cB, argsB = prepare(B)[:3]
+    try:
+        ref = refine_droplet(fB, cB.copy(), least_squares_params=dict(case["shared"]), **argsB, **extra)
+        shared = dict(case["shared"])
+        fA, cA, argsA = prepare(A)[:3]
+        refine_droplet(fA, cA.copy(), least_squares_params=shared, **argsA, **extra)
+        got = refine_droplet(fB, cB.copy(), least_squares_params=shared, **argsB, **extra)
+        ctx.op(3)
+    except Exception as e:  # noqa
+        ctx.check("C04.no-raise", False, {"exc": repr(e)[:300]}, tags)
+        return
+    ctx.check("C04.options-not-carried-over", type(got) is type(ref) and got.data.tobytes() == ref.data.tobytes(),
+              {"fresh_options": str(ref), "options_used_before": str(got), "options_after": {k: repr(v)[:80] for k, v in shared.items()}}, tags)
+
+
+def prepare(case):
+    """field, candidate, refine arguments (+ bookkeeping) for one catalogue case"""
     from pde import ScalarField
 
     from droplets import droplets as dm
-    from droplets.image_analysis import refine_droplet
 
     g = case["grid"]
     grid = geom.make_grid(g)
@@ -214,6 +259,20 @@ def run_case(case, ctx):
     if lv.endswith("+fit"):
         args["adjust_values"] = True
     field = ScalarField(grid, data)
+    return field, cand, args, dict(locals())
+
+
+def run_case(case, ctx):
+    from pde import ScalarField
+
+    from droplets import droplets as dm
+    from droplets.image_analysis import refine_droplet, refine_droplets
+
+    if "pair" in case:
+        return run_pair(case, ctx)
+    field, cand, args, loc = prepare(case)
+    g, grid, kind, dim, c, R, w, img, clsname, modes, cw, state, tags, a, b, data, cls, cand0, lv = (loc[k] for k in (
+        "g", "grid", "kind", "dim", "c", "R", "w", "img", "clsname", "modes", "cw", "state", "tags", "a", "b", "data", "cls", "cand0", "lv"))
     before = field.data.tobytes()
     _REC["calls"].clear()
     try:
@@ -226,6 +285,14 @@ def run_case(case, ctx):
     ctx.check("C04.no-raise", True)
     ctx.check("C04.image-unmodified", field.data.tobytes() == before, None, tags)
     calls = list(_REC["calls"])
+    # the plural entry point (used by locate_droplets) must hand every option through unchanged
+    try:
+        plural = refine_droplets(field, [cand0.copy()], **args)
+        ctx.op()
+        same = len(plural) == 1 and type(plural[0]) is type(out) and plural[0].data.tobytes() == out.data.tobytes()
+        ctx.check("C04.plural-agrees", same, {"refine_droplet": str(out), "refine_droplets": [str(d) for d in plural], "args": {k: repr(v) for k, v in args.items()}}, tags)
+    except Exception as e:  # noqa
+        ctx.check("C04.plural-agrees", False, {"exc": repr(e)[:300]}, tags)
     ctx.check("C04.optimiser-observed", len(calls) == 1, {"calls": len(calls)}, tags)
     if calls:
         c0, c1 = calls[0]["cost0"], calls[0]["cost1"]
@@ -304,5 +371,5 @@ def cons_idx(grid):
 
 
 def expected_positive(tier):
-    return ["C04.cost", "C04.deviation", "C04.class", "C04.bounds", "C04.constrained", "C04.wrapped", "C04.image-unmodified", "C04.fixpoint", "non-zero-initial-cost", "fit-improved",
+    return ["C04.plural-agrees", "C04.options-not-carried-over", "C04.cost", "C04.deviation", "C04.class", "C04.bounds", "C04.constrained", "C04.wrapped", "C04.image-unmodified", "C04.fixpoint", "non-zero-initial-cost", "fit-improved",
             "constrained-coordinates", "candidate-outside-box"]
